@@ -210,6 +210,8 @@ PROPERTIES["C14"] = dict(
           functions=["a5::core::compact::compact"] + ORD, bounds="N=4; passes ≤ 2", unwindset=cmp_unwind(4), mem_gb=30, timeout=3600),
         H("c14_compact_r1_clean5", "c14", [Q, T], "∀ 5 IDs with marker at bit 56 and clean low bits, any top-6 code 0..63 (strictly increasing): no overflow in cell + j·stride; Err only if some input is a non-cell",
           functions=["a5::core::compact::compact"] + ORD, bounds="N=5, IDs of the form code<<58|1<<56; passes ≤ 2", unwindset=cmp_unwind(5), mem_gb=24, mem_est=10, timeout=2400, assumes=COMPACT_STUBS),
+        H("c14_compact_r2_clean4", "c14", [Q, T], "∀ 4 IDs with marker at bit 55 and clean low bits, any top-6 code 0..63 (strictly increasing): compact terminates without panic; Err only if some input is a non-cell",
+          functions=["a5::core::compact::compact"] + ORD, bounds="N=4, IDs of the form code<<58|k<<56|1<<55; passes ≤ 2", unwindset=cmp_unwind(4), mem_gb=24, mem_est=10, timeout=2400, assumes=COMPACT_STUBS),
         H("c14_compact_lowres5", "c14", [T], "∀ 5 arbitrary u64 of apparent resolution ≤ 1 (strictly increasing): compact has no overflow in cell + j·stride, terminates",
           functions=["a5::core::compact::compact"] + ORD, bounds="N=5, apparent resolution ≤ 1; passes ≤ 2", unwindset=cmp_unwind(5), mem_gb=30, timeout=3600),
         H("c14_lookup_hit", "c14", [Q, T], "∀ finite lon/lat × ∀ i32 r (first probe hits): Ok(id) ⇒ res(id)=r∈−1..29, canonical; Err ⇔ r∉−1..29",
@@ -279,6 +281,8 @@ PROPERTIES["C04"] = dict(
     harnesses=[
         H("c04_table", "c04", [Q, T], "∀ r∈0..29: |cell_area(r)·N(r) − cell_area(−1)| ≤ 1e-9·cell_area(−1); get_num_cells(r)=N(r) (r≤27; ≤1e-15 rel. at 28,29); area ratio of consecutive levels = 4",
           functions=["a5::core::cell_info::cell_area", "a5::core::cell_info::get_num_cells"], bounds="none: all 30 levels symbolic", exhaustive=True),
+        H("c04_table_seq", "c04", [Q, T], "as c04_table, after cell_area/get_num_cells were used for two arbitrary earlier resolutions (any i32): the answers do not depend on call history",
+          functions=["a5::core::cell_info::cell_area", "a5::core::cell_info::get_num_cells"], bounds="three-call sequences; all i32 × i32 × 0..29", exhaustive=True),
         H("c04_table_low", "c04", [Q, T], "∀ r<0: cell_area(r) = authalic Earth area, get_num_cells(r)=0", functions=["a5::core::cell_info::cell_area", "a5::core::cell_info::get_num_cells"], bounds="none", exhaustive=True),
     ],
 )
@@ -304,7 +308,7 @@ PROPERTIES["C18"] = dict(
           functions=["a5::core::origin::get_origins (generate_origins)", "a5::core::dodecahedron_quaternions::QUATERNIONS"], bounds="none: all 144 pairs", exhaustive=True, timeout=1200),
         H("c18_axis_table", "c18", [Q, T], "∀ face: stored axis (θ,φ) = documented frame (pole; 72°-spaced ring at 63.435°; ring offset 36° at 116.565°; south pole) in curve order",
           functions=["a5::core::origin::get_origins (generate_origins)"], bounds="none", exhaustive=True),
-        H("c18_offset", "c18", [Q, T], "∀ finite lon: from_lon_lat(lon,·).theta = (lon+93)·π/180 bit-exactly", functions=["a5::core::coordinate_transforms::from_lon_lat (longitude leg)"],
+        H("c18_offset", "c18", [Q, T], "∀ finite lon: with deg_to_rad ↦ identity, from_lon_lat(lon,·).theta = lon+93 bit-exactly (offset and plumbing; the factor is pinned by c18_deg_to_rad_points)", functions=["a5::core::coordinate_transforms::from_lon_lat (longitude leg)", "a5::core::coordinate_transforms::deg_to_rad"],
           bounds="none: all finite doubles", exhaustive=True, assumes=["AuthalicProjection::forward stubbed nondeterministically (sin/cos series; does not influence theta)"]),
     ],
 )
@@ -321,6 +325,9 @@ def c06a(n, tiers, timeout=1500, mem=8):
              bounds=f"curve depth n={n}", timeout=timeout, mem_gb=mem)
 
 
+PROPERTIES["C18"]["harnesses"].append(
+    H("c18_deg_to_rad_points", "c18", [Q, T], "deg_to_rad: 180°↦π, 90°↦π/2, 0↦0, −180°↦−π exactly; from_lon_lat: −93°↦θ=0, 87°↦θ=π, −3°↦θ=π/2 exactly",
+      functions=["a5::core::coordinate_transforms::deg_to_rad", "a5::core::coordinate_transforms::from_lon_lat (longitude leg)"], bounds="concrete points", exhaustive=False))
 PROPERTIES["C06"] = dict(
     explanation="PARTIAL: the labelling chain ID ↔ (face, quintant, orientation, anchor) ↔ lattice position is proved equal to a frozen copy of the reference release v0.6.2 for all inputs within bounds (differential harnesses, both sides symbolically executed). Projection/authalic/containment legs are outside this technique's reach.",
     assumptions=[FMT_STUB],
@@ -333,7 +340,7 @@ PROPERTIES["C06"] = dict(
         H("c06_encode", "c06", [Q, T], "∀ valid cell(−1..29): serialize = reference's u64", functions=SER + ["a5_ref::core::serialization::*"], bounds="none", exhaustive=True, assumes=[VALID]),
         H("c06_relabel", "c06", [Q, T], "∀ face<12, k<5: both relabelling maps = reference's (index, orientation); face tables bit-equal", functions=["a5::core::origin::*", "a5_ref::core::origin::*"], bounds="none", exhaustive=True),
         H("c06_tables", "c06", [Q, T], "∀ r∈−1..30: get_num_cells, cell_area bit-equal to reference; QUATERNIONS bit-equal", functions=["a5::core::cell_info::*", "a5_ref::core::cell_info::*"], bounds="r ∈ −1..30", exhaustive=True),
-        H("c06_lon_offset", "c06", [Q, T], "∀ finite lon: longitude leg of from_lon_lat bit-equal to reference", functions=["a5::core::coordinate_transforms::from_lon_lat"], bounds="none", exhaustive=True),
+        H("c06_lon_offset", "c06", [Q, T], "∀ finite lon: longitude leg of from_lon_lat (deg_to_rad ↦ identity in both crates) bit-equal to reference", functions=["a5::core::coordinate_transforms::from_lon_lat"], bounds="none", exhaustive=True),
         c06a(2, [Q, T]), c06a(4, [Q, T]), c06a(6, [Q, T]), c06a(8, [T], 3000), c06a(10, [T], 3600, 12), c06a(12, [T], 3600, 16),
     ],
 )
